@@ -251,16 +251,30 @@ def axioms_ok(axmap):
 
 # ---------------------------------------------------------------- known findings
 def known_findings(prop):
-    fn = os.path.join(VERIF, 'known_findings.jsonl')
+    """known_findings.txt lines:
+         fixed: property=<id> <commit> <what failed>          (informational, suppresses nothing)
+         known: property=<id> {"id":..., "clause":..., "match":{...}, "what":...}
+    """
+    fn = os.path.join(VERIF, 'known_findings.txt')
     res = []
     if os.path.exists(fn):
         for line in open(fn):
             line = line.strip()
-            if line and not line.startswith('#'):
-                e = json.loads(line)
-                if e.get('property') == prop:
-                    res.append(e)
+            m = re.match(r'known:\s+property=(\S+)\s+(\{.*\})$', line)
+            if m and m.group(1) == prop:
+                e = json.loads(m.group(2)); e['property'] = prop; e['kind'] = 'known'
+                res.append(e)
     return res
+
+
+def match_known_default(f, known):
+    """a failure matches a known entry when the clause is the same and every key of entry.match equals the failure's"""
+    for k in known:
+        if k.get('clause') != f.get('clause'):
+            continue
+        if all(f.get(a) == b for a, b in k.get('match', {}).items()):
+            return k
+    return None
 
 
 # ---------------------------------------------------------------- evidence / replay
